@@ -4,6 +4,7 @@
 //! case line:  `<mode> <issA> <issB> <mtuA> <mtuB> | <label> ; <label> ; ...`
 //!   mode 0: A closed (opens by label `O 0`), B listening; mode 1: both closed (simultaneous open)
 //! labels (s = side 0/1, d = direction 0: A->B, 1: B->A):
+//!   G k ms (like F k with ticks of ms milliseconds) | H k ms (like G but only the oldest third of the in-flight segments, at least one, is delivered per direction and round) |
 //!   O s | S s n | R s | C s | T s ms (= E s, then advance_time) | E s | D d i | X d i | U d i | F k
 //!   I d seq ack ctl wnd len      (inject a forged segment into direction d and deliver it at once)
 //!   Q                            (oracle check-point: liveness conditions must hold here)
@@ -312,8 +313,6 @@ impl Sys {
             let seg_len = seg_copy.text.len() as u32 + h.ctl.syn() as u32 + h.ctl.fin() as u32;
             let unacceptable = if bs.state == State::SynSent {
                 !h.ctl.syn() && !h.ctl.rst()
-            } else if bs.state == State::Closing {
-                false
             } else {
                 // no sequence number of the segment lies in [rcv.nxt-1, rcv.nxt+wnd)
                 let lo = bs.rcv_nxt.wrapping_sub(1);
@@ -603,20 +602,25 @@ impl Sys {
                 self.arrive(1 - d, seg, out);
                 let _ = write!(out, "|{}", snap_str(1 - d, &self.end[1 - d], (self.del[1 - d].len(), self.del_hash[1 - d])));
             }
-            "F" => {
-                // k fair loss-free rounds
+            "F" | "G" | "H" => {
+                // k fair loss-free rounds with ticks of 101 ms (F) or of the given length (G)
                 let k = p(1);
+                let tick_ms = if lab[0] != "F" { lab[2].to_string() } else { "101".to_string() };
+                let one = lab[0] == "H";
                 self.in_tail = true;
                 for _ in 0..k {
                     for s in 0..2 {
                         let mut o = String::new();
-                        self.step(&["T", if s == 0 { "0" } else { "1" }, "101"], &mut o);
+                        self.step(&["T", if s == 0 { "0" } else { "1" }, tick_ms.as_str()], &mut o);
                         o.clear();
                         self.emit(s, &mut o);
-                        while !self.net[s].is_empty() {
+                        // all in-flight segments in order, or (H) the oldest third of them, at least one
+                        let mut budget = if one { self.net[s].len() / 3 + 1 } else { usize::MAX };
+                        while !self.net[s].is_empty() && budget > 0 {
                             let seg = self.net[s].remove(0);
                             o.clear();
                             self.arrive(1 - s, seg, &mut o);
+                            budget -= 1;
                         }
                         for r in 0..2 {
                             o.clear();
@@ -918,10 +922,28 @@ fn gen_case(rng: &mut Rng, idx: usize) -> String {
     }
     if alive && !hostile {
         // fair loss-free tail, then the liveness check-point
-        let _ = push(&mut sys, &mut labels, "F 40".into());
-        let _ = push(&mut sys, &mut labels, "T 0 2001".into());
-        let _ = push(&mut sys, &mut labels, "T 1 2001".into());
-        let _ = push(&mut sys, &mut labels, "F 3".into());
+        // the loss-free tail uses ticks longer than the RTO, or much shorter ones with traffic in between
+        // (a retransmission timer that is restarted by every emission never expires in the second kind)
+        let tail = match rng.below(4) {
+            0 => "F 40".to_string(),
+            1 => "G 140 30".to_string(),
+            2 => "G 90 50".to_string(),
+            // one delivery per direction and round: queueing delay keeps ACKs flowing in every round
+            _ => "H 300 30".to_string(),
+        };
+        let _ = push(&mut sys, &mut labels, tail);
+        // let a 2*MSL wait run out - but only on a side that is in TIME-WAIT, so that the long tick cannot
+        // rescue a retransmission timer that failed to expire during the tail
+        let mut waited = false;
+        for s in 0..2 {
+            if sys.state(s) == Some(State::TimeWait) {
+                let _ = push(&mut sys, &mut labels, format!("T {} 2001", s));
+                waited = true;
+            }
+        }
+        if waited {
+            let _ = push(&mut sys, &mut labels, "F 3".into());
+        }
         labels.push("Q".into());
     } else if alive {
         let _ = push(&mut sys, &mut labels, "F 5".into());
